@@ -14,8 +14,9 @@ Reading guide
   `root/s₁/…/sₙ` — strictly inside the root; the same for package-relative roots through `os.path.join(base, *name.split('/'))`.
 * §3 the view: everything it opens lies strictly inside the root — for an arbitrary subpath tuple, for every raw
   `PATH_INFO` through the `*subpath` route, for every raw `PATH_INFO` through traversal + `use_subpath=False`;
-  the view *is* the declarative spec (`specView`) when no candidate is a directory; the two recorded defects are
-  proved real at concrete points.
+  the view *is* the declarative spec (`specView`) on every tuple, both mountings answer every raw path by what its
+  normalised form designates, and the view never opens anything but a regular file; the witnesses of the two repaired
+  defects (F-C16a, F-C16b) are proved to behave as the property demands.
 * §4 encoded variants: what is served is a configured variant of the target, accepted by the client, labelled
   with its encoding, smallest among the acceptable ones; without `Accept-Encoding` only the identity file.
 -/
@@ -26,10 +27,11 @@ open Pyr.Trav (Seg Bytes splitOn joinWith splitPathInfo decodePathInfo)
 /-! ## 0. generated obligations (regenerated from src/pyramid/static.py on every run) -/
 
 /-- the translator recognised `_invalid_element_chars`, the insecure-element set, `_contains_invalid_element_char`,
-`_secure_path` (both refusals, then `'/'.join`) and the call site in `get_resource_name` -/
+`_secure_path` (both refusals, then `'/'.join`), the call site in `get_resource_name`, the single decoding of the
+raw `PATH_INFO` without `use_subpath`, and `find_resource_path` accepting regular files only -/
 theorem gen_shapes_recognised :
     Gen.charsShape = "ok" ∧ Gen.elemsShape = "ok" ∧ Gen.containsShape = "ok" ∧ Gen.secureShape = "ok" ∧
-      Gen.callsiteShape = "ok" := by decide
+      Gen.callsiteShape = "ok" ∧ Gen.decodeonceShape = "ok" ∧ Gen.regularfileShape = "ok" := by decide
 
 /-- the sets in the source are, as sets, the ones the model uses -/
 theorem gen_tables_are_the_models :
@@ -198,15 +200,7 @@ theorem plain_mount_contained (fs : Fs) (v : View) (hw : WfView v) (hr : RootIsD
     simp only [hd] at h
     by_cases hreach : traversalReaches (splitPathInfo (if t = [] then ['/'] else t)) = true
     · simp only [hreach, if_true] at h
-      cases hl : latin1Encode t with
-      | none => simp [hl] at h
-      | some b =>
-        simp only [hl] at h
-        cases hd2 : decodePathInfo b with
-        | none => simp [hd2] at h
-        | some t2 =>
-          simp only [hd2] at h
-          exact staticView_under fs v hw hr ae _ _ p h
+      exact staticView_under fs v hw hr ae _ _ p h
     · simp [hreach] at h
 
 /-- a concrete configuration and tree used by the examples and witnesses below -/
@@ -250,18 +244,18 @@ example : serveSub exFs exView none "/static/".toList (ascii "/static/../../secr
     serveSub exFs exView none "/static/".toList [47, 115, 116, 97, 116, 105, 99, 47, 0xc0, 0xae, 0xc0, 0xae, 47, 115] = .urlDecodeError := by
   decide
 
-/-- **The view is the spec.**  For a well-formed configuration whose root is a directory, in a tree where no
-candidate is a directory, `static_view.__call__` on ANY tuple is the declarative `specView`: 404 for a tuple with
-an improper component; otherwise `root/s₁/…/sₙ` — a redirect for a directory without trailing slash, its index
-file with one, the file itself otherwise — served as the smallest existing variant the client accepts. -/
-theorem static_view_eq_spec (fs : Fs) (v : View) (hw : WfView v) (hr : RootIsDir fs v) (hnd : NoDirCandidates fs v)
+/-- **The view is the spec.**  For a well-formed configuration whose root is a directory,
+`static_view.__call__` on ANY tuple is the declarative `specView`: 404 for a tuple with an improper component;
+otherwise `root/s₁/…/sₙ` — a redirect for a directory without trailing slash, its index file with one, the file
+itself otherwise — served as the smallest existing regular file among the variants the client accepts. -/
+theorem static_view_eq_spec (fs : Fs) (v : View) (hw : WfView v) (hr : RootIsDir fs v)
     (ae : Option (List Enc)) (slash : Bool) (segs : List Seg) :
     staticView fs v ae slash segs = specView fs v ae slash segs :=
-  staticView_eq_specView fs v hw hr hnd ae slash segs
+  staticView_eq_specView fs v hw hr ae slash segs
 
 /-- Through `add_static_view`, every raw request path is answered by what its normalised remainder designates. -/
 theorem sub_mount_serves_designated (fs : Fs) (v : View) (hw : WfView v) (hr : RootIsDir fs v)
-    (hnd : NoDirCandidates fs v) (ae : Option (List Enc)) (pfx : Text) (wsgi : Bytes) :
+    (ae : Option (List Enc)) (pfx : Text) (wsgi : Bytes) :
     serveSub fs v ae pfx wsgi =
       match decodePathInfo wsgi with
       | none => .urlDecodeError
@@ -276,65 +270,53 @@ theorem sub_mount_serves_designated (fs : Fs) (v : View) (hw : WfView v) (hr : R
     simp only
     cases routeRemainder pfx (if t = [] then ['/'] else t) with
     | none => rfl
-    | some rest => exact staticView_eq_specView fs v hw hr hnd ae _ _
+    | some rest => exact staticView_eq_specView fs v hw hr ae _ _
 
-/-- Through traversal + `use_subpath=False` the same holds only when decoding the path a second time changes
-nothing (`hre`, `hdec`: true of every all-ASCII path) — PARTIAL: the code calls
-`traversal_path_info(request.path_info)` on WebOb's already decoded text (finding F-C16b). -/
-theorem plain_mount_serves_designated_partial (fs : Fs) (v : View) (hw : WfView v) (hr : RootIsDir fs v)
-    (hnd : NoDirCandidates fs v) (ae : Option (List Enc)) (wsgi b : Bytes) (t : Text)
-    (hd : decodePathInfo wsgi = some t) (hre : latin1Encode t = some b) (hdec : decodePathInfo b = some t)
-    (hreach : traversalReaches (splitPathInfo (if t = [] then ['/'] else t)) = true) :
-    servePlain fs v ae wsgi = specView fs v ae (endsWithSlash t) (splitPathInfo t) := by
+/-- Through traversal + `use_subpath=False`, every raw request path — ASCII or not — is answered by what its
+normalised form designates (unless traversal dispatches it to another view: an `@@name` segment). -/
+theorem plain_mount_serves_designated (fs : Fs) (v : View) (hw : WfView v) (hr : RootIsDir fs v)
+    (ae : Option (List Enc)) (wsgi : Bytes) :
+    servePlain fs v ae wsgi =
+      match decodePathInfo wsgi with
+      | none => .urlDecodeError
+      | some t =>
+        if traversalReaches (splitPathInfo (if t = [] then ['/'] else t)) then
+          specView fs v ae (endsWithSlash t) (splitPathInfo t)
+        else .notFound := by
   unfold servePlain
-  simp only [hd, hreach, if_true, hre, hdec]
-  exact staticView_eq_specView fs v hw hr hnd ae _ _
+  cases decodePathInfo wsgi with
+  | none => rfl
+  | some t =>
+    simp only [staticView_eq_specView fs v hw hr ae]
 
-example : decodePathInfo [47, 97] = some ['/', 'a'] ∧ latin1Encode ['/', 'a'] = some [47, 97] ∧
-    traversalReaches (splitPathInfo ['/', 'a']) = true := by decide
+/-- the witness of the repaired F-C16b: `/ü` and `/日` name existing files and are served (decoded once) -/
+theorem plain_mount_non_ascii_served :
+    let fs : Fs := { exFs with isThere := fun p => p = "/srv/www/ü".toList || p = "/srv/www/日".toList || exFs.isThere p }
+    servePlain fs exView none [47, 0xc3, 0xbc] = .file "/srv/www/ü".toList none false ∧
+    servePlain fs exView none [47, 0xe6, 0x97, 0xa5] = .file "/srv/www/日".toList none false := by decide
 
-/-- F-C16b is real: `/ü` names an existing file, the spec serves it, the code raises URLDecodeError; a character
-above U+00FF raises UnicodeEncodeError. -/
-theorem plain_mount_decodes_twice :
-    let fs : Fs := { exFs with isThere := fun p => p = "/srv/www/ü".toList || exFs.isThere p }
-    servePlain fs exView none [47, 0xc3, 0xbc] = .urlDecodeError ∧
-    specView fs exView none false (splitPathInfo ['/', 'ü']) = .file "/srv/www/ü".toList none false ∧
-    servePlain fs exView none [47, 0xe6, 0x97, 0xa5] = .unicodeEncodeError := by decide
-
-/-- The outcomes of the view — PARTIAL: "404, redirect, or a file strictly inside the root" holds when no
-candidate is a directory; otherwise `open()` raises IsADirectoryError (finding F-C16a, next theorem). -/
-theorem static_view_outcomes_partial (fs : Fs) (v : View) (hw : WfView v) (hr : RootIsDir fs v)
-    (hnd : NoDirCandidates fs v) (ae : Option (List Enc)) (slash : Bool) (segs : List Seg) :
+/-- **The outcomes of the view**: 404, a redirect, or a file strictly inside the root — never anything else. -/
+theorem static_view_outcomes (fs : Fs) (v : View) (hw : WfView v) (hr : RootIsDir fs v)
+    (ae : Option (List Enc)) (slash : Bool) (segs : List Seg) :
     staticView fs v ae slash segs = .notFound ∨ staticView fs v ae slash segs = .redirect ∨
-      ∃ p e b, staticView fs v ae slash segs = .file p e b ∧ Under (rootOf v) p := by
-  have hspec := staticView_eq_specView fs v hw hr hnd ae slash segs
+      ∃ p e b, staticView fs v ae slash segs = .file p e b ∧ Under (rootOf v) p ∧ fs.isRegular p = true := by
+  have hspec := staticView_eq_specView fs v hw hr ae slash segs
   rcases specView_cases fs v ae slash segs with h | h | ⟨p, e, b, h⟩
   · exact .inl (hspec.trans h)
   · exact .inr (.inl (hspec.trans h))
   · have ho := hspec.trans h
-    exact .inr (.inr ⟨p, e, b, ho, staticView_under fs v hw hr ae slash segs p (.inl ⟨e, b, ho⟩)⟩)
+    refine .inr (.inr ⟨p, e, b, ho, staticView_under fs v hw hr ae slash segs p (.inl ⟨e, b, ho⟩), ?_⟩)
+    exact staticView_file_regular fs v ae slash segs p e b ho
 
-/-- non-vacuity of `NoDirCandidates`: a tree without `….gz/` and `…/index.html/` directories -/
-example : NoDirCandidates { exFs with isDir := fun p => p = "/srv/www".toList ∨ p = "/srv/www/sub".toList } exView := by
-  refine ⟨?_, ?_⟩
-  · intro t e he x hx
-    simp only [exView, List.mem_singleton] at he
-    subst he
-    simp only [List.mem_singleton] at hx
-    subst hx
-    have hz : ∀ l : Text, (t ++ ".gz".toList) = l → l.getLast? = some 'z' := by
-      intro l hl; subst hl; simp [List.getLast?_append]
-    simp only [decide_eq_false_iff_not, not_or]
-    exact ⟨fun h => by have := hz _ h; simp at this, fun h => by have := hz _ h; simp at this⟩
-  · intro d hd
-    have hz : ∀ l : Text, (d ++ '/' :: exView.index) = l → l.getLast? = some 'l' := by
-      intro l hl; subst hl; simp [List.getLast?_append, exView]
-    simp only [decide_eq_false_iff_not, not_or]
-    exact ⟨fun h => by have := hz _ h; simp at this, fun h => by have := hz _ h; simp at this⟩
+/-- With no assumption on the configuration at all: the view never hands a directory to `open()`. -/
+theorem static_view_opens_regular_files_only (fs : Fs) (v : View) (ae : Option (List Enc)) (slash : Bool)
+    (segs : List Seg) (p : Text) : staticView fs v ae slash segs ≠ .isADirectory p := by
+  intro h
+  exact staticView_not_isADirectory fs v ae slash segs p h
 
-/-- F-C16a is real: a directory named like the index file is taken as the file to serve. -/
-theorem index_directory_raises :
-    staticView exFs exView none true ["d".toList] = .isADirectory "/srv/www/d/index.html".toList ∧
+/-- the witness of the repaired F-C16a: a directory named like the index file is treated as missing -/
+theorem index_directory_is_missing :
+    staticView exFs exView none true ["d".toList] = .notFound ∧
     specView exFs exView none true ["d".toList] = .notFound := by decide
 
 /-! ## 4. encoded variants -/
